@@ -19,7 +19,7 @@ def san_ext(san="self.subject_alt_names"):
 
 
 def ku_ext():
-    return Cond("!empty(self.key_usages)", [ext(R.OID_KU, True, [Prim("BIT STRING", P("self.key_usages", via=["KeyUsagePurpose::to_u16"]))])])
+    return Cond("!empty(self.key_usages)", [ext(R.OID_KU, True, [Prim("BIT STRING", P("self.key_usages", via=["KeyUsagePurpose::to_u16"], loose=True))])])
 
 
 def eku_ext():
@@ -61,7 +61,7 @@ def tbs_cert_list(strict_invalidity=True):
     rc = "self.revoked_certs"
     e = rc + "[]"
     idp = "self.issuing_distribution_point?"
-    inv = [Prim("GeneralizedTime", P(rc))] if strict_invalidity else [Time(e + ".invalidity_date?")]
+    inv = [Prim("GeneralizedTime", P(rc, via=["dt_to_generalized"]))] if strict_invalidity else [Time(e + ".invalidity_date?")]
     return [Seq([
         Prim("INTEGER", C(1)),
         R.alg_ident("issuer.key_pair.alg", "issuer.key_pair.alg"),
